@@ -35,21 +35,23 @@ type LoadOpts struct {
 
 // Prog is one loaded, type-checked, SSA-built program.
 type Prog struct {
-	Name     string
-	Opts     LoadOpts
-	Fset     *token.FileSet
-	Roots    []*packages.Package
-	ModPkgs  map[string]*packages.Package // import path -> package (module packages only)
-	SSA      *ssa.Program
-	Funcs    []*ssa.Function // every function whose source is in a module package (minus new helpers that are only called synchronously: their bodies are visited as part of their callers)
-	AllFuncs []*ssa.Function // every function whose source is in a module package
-	Aliases  []string        // rename aliases and transparent helpers established for this program (evidence)
-	regObjs  []types.Object  // keys this program added to the global registries (Release removes them)
-	regFns   []*ssa.Function
-	byName   map[string]*ssa.Function
-	CG       *callgraph.Graph // Deep only
-	NPkgs    int              // all packages in the import graph
-	NFuncs   int              // all SSA functions (deep) or module functions (shallow)
+	Name       string
+	Opts       LoadOpts
+	Fset       *token.FileSet
+	Roots      []*packages.Package
+	ModPkgs    map[string]*packages.Package // import path -> package (module packages only)
+	SSA        *ssa.Program
+	Funcs      []*ssa.Function // every function whose source is in a module package (minus new helpers that are only called synchronously: their bodies are visited as part of their callers)
+	AllFuncs   []*ssa.Function // every function whose source is in a module package
+	Aliases    []string        // rename aliases and transparent helpers established for this program (evidence)
+	regGlobals []*ssa.Global
+	regKeys    []*types.Func
+	regObjs    []types.Object // keys this program added to the global registries (Release removes them)
+	regFns     []*ssa.Function
+	byName     map[string]*ssa.Function
+	CG         *callgraph.Graph // Deep only
+	NPkgs      int              // all packages in the import graph
+	NFuncs     int              // all SSA functions (deep) or module functions (shallow)
 }
 
 // Rel strips the module path from an import path.
@@ -181,6 +183,9 @@ func Load(name string, o LoadOpts) (*Prog, error) {
 				for top.Parent() != nil {
 					top = top.Parent()
 				}
+				if hi := helperOf(fn); hi != nil && hi.seam {
+					top = fn
+				}
 				if info := helperOf(top); info != nil {
 					syncOnly := true
 					for _, s := range info.sites {
@@ -306,6 +311,19 @@ func (p *Prog) FuncsIn(rel string) []*ssa.Function {
 	return out
 }
 
+// AllFuncsIn is FuncsIn over every function with source, including new helpers whose
+// bodies are otherwise only seen spliced into their callers: for whole-package scans that
+// read each function's own instructions.
+func (p *Prog) AllFuncsIn(rel string) []*ssa.Function {
+	var out []*ssa.Function
+	for _, fn := range p.AllFuncs {
+		if pk := fnPkg(fn); pk != nil && Rel(pk.Pkg.Path()) == rel {
+			out = append(out, fn)
+		}
+	}
+	return out
+}
+
 // IsModFunc reports whether fn's source is in a module package.
 func (p *Prog) IsModFunc(fn *ssa.Function) bool {
 	pk := fnPkg(fn)
@@ -391,17 +409,26 @@ func (p *Prog) Release() {
 	for _, o := range p.regObjs {
 		delete(canonName, o)
 	}
+	for _, f := range p.regKeys {
+		delete(canonKey, f)
+	}
+	p.regKeys = nil
 	canonMu.Unlock()
 	helperMu.Lock()
+	for _, g := range p.regGlobals {
+		delete(seamReg, g)
+	}
 	for _, f := range p.regFns {
 		delete(helperReg, f)
+		delete(exitWrappers, f)
 		delete(boundReg, f)
 		delete(litMethods, f)
 		delete(recvAlloc, f)
 	}
 	helperMu.Unlock()
-	p.regObjs, p.regFns = nil, nil
+	p.regObjs, p.regFns, p.regGlobals = nil, nil, nil
 	paramMapMu.Lock()
 	paramMaps = map[*types.Func]*paramMap{} // a cache keyed by this program's objects
+	resultMaps = map[*types.Func][]int{}
 	paramMapMu.Unlock()
 }
